@@ -880,7 +880,9 @@ def fontbuild_cross(ctx, shim, r, nfonts):
 
 
 def d17_probe(ctx, shim):
-    """D17 through the public API: a non-contextual subtable switched on by `smcp` for clusters [2,4) only."""
+    """D17 (repaired in the crate by the fix commit \"morx non-contextual subtable looks up the feature range of the
+    glyph being substituted\") through the public API: a non-contextual subtable switched on by `smcp` for clusters
+    [2,4) only. Kept as a permanent regression probe; also smcp[0:2] (used to substitute every glyph)."""
     r = vlib.Rng(0, "d17")
     seen = {g: g for g in range(NG)}
     seen.update({g: g + 1 for g in range(1, 8)})
@@ -898,11 +900,18 @@ def d17_probe(ctx, shim):
     got = gids_of(out.split()[1]) if out.startswith("ok") else out
     ctx.cov.setdefault("probes", {})["D17"] = {"request_feature": "smcp[2:4]=1", "glyphs_in": gl, "expected": want,
                                                "observed": got}
+    ln2 = f"morx shape {font.hex()} R 0 I l 0 {tag_hex('smcp')}:1:0:2 {text}"
+    out2 = vlib.run_lines(shim, [ln2], nproc=1)[0]
+    got2 = gids_of(out2.split()[1]) if out2.startswith("ok") else out2
+    if got2 != [2, 3, 3, 4, 5]:
+        ctx.violation(f"non-contextual subtable ignores the feature range: smcp[0:2] on glyphs {gl} gives {got2}, "
+                      f"expected [2, 3, 3, 4, 5] (D17)", {"stage": "search", "stream": "morx-d17", "request": ln2,
+                      "feature": "smcp[0:2]=1", "expected": [2, 3, 3, 4, 5], "observed": got2})
     if got != want:
         ctx.violation(f"non-contextual subtable ignores the feature range: smcp[2:4] on glyphs {gl} gives {got}, "
                       f"expected {want} (D17)", {"stage": "search", "stream": "morx-d17", "request": ln,
                       "feature": "smcp[2:4]=1", "expected": want, "observed": got})
-    ctx.note_search("morx-d17", 1, 1, rule="one fixed probe of the feature-range handling of the non-contextual subtable")
+    ctx.note_search("morx-d17", 2, 2, rule="two fixed probes of the feature-range handling of the non-contextual subtable")
 
 
 # finding F2: a font (found by the morx-run generator, seed 5) whose single insertion subtable makes a 3-glyph
